@@ -166,6 +166,77 @@ def kf_duration_fraction(s, a, b):
     return bool(m) and abs(a[3] - b[3]) < 60 * US
 
 
+def boundary_strings(years):
+    """Date strings at the edge of their component ranges, with what the calendar says they denote
+    ((y, m, d) or None = no such date): week 0/1/52/53/54 x weekday 0/1/7/8, ordinal day 0/1/59/60/365/366/367,
+    days 28..32 of every month - for every year type."""
+    import datetime as dt_
+    out = []
+    for y in years:
+        for w in (0, 1, 52, 53, 54):
+            for d in (None, 0, 1, 4, 7, 8):
+                try:
+                    v = dt_.date.fromisocalendar(y, w, d if d is not None else 1)
+                    want = (v.year, v.month, v.day)
+                except ValueError:
+                    want = None
+                if d is None:
+                    out += [(f"{y:04d}-W{w:02d}", want), (f"{y:04d}W{w:02d}", want)]
+                else:
+                    out += [(f"{y:04d}-W{w:02d}-{d}", want), (f"{y:04d}W{w:02d}{d}", want)]
+        leap = y % 4 == 0 and (y % 100 != 0 or y % 400 == 0)
+        for n in (0, 1, 59, 60, 61, 365, 366, 367):
+            want = None
+            if 1 <= n <= (366 if leap else 365):
+                v = dt_.date(y, 1, 1) + dt_.timedelta(days=n - 1)
+                want = (v.year, v.month, v.day)
+            out += [(f"{y:04d}-{n:03d}", want), (f"{y:04d}{n:03d}", want)]
+        for m in range(1, 13):
+            for d in (0, 28, 29, 30, 31, 32):
+                try:
+                    dt_.date(y, m, d)
+                    want = (y, m, d)
+                except ValueError:
+                    want = None
+                out += [(f"{y:04d}-{m:02d}-{d:02d}", want), (f"{y:04d}{m:02d}{d:02d}", want)]
+    return out
+
+
+def check_boundary(acc, pendulum, swap, s, want):
+    """A boundary string denotes the calendar's date or nothing: never a date computed from a wrapped component."""
+    backends = [("compiled" if swap else "python", None)]
+    if swap:
+        backends.append(("python-parser", swap))
+    for opts in ({}, {"exact": True}):
+        for bname, sw in backends:
+            if sw:
+                sw[0].parse_iso8601 = sw[2]
+            try:
+                r = run_parse(pendulum, s, opts)
+            finally:
+                if sw:
+                    sw[0].parse_iso8601 = sw[1]
+            acc.c["evaluations"] += 1
+            acc.c["transitions"] += 1
+            case = {"kind": "b", "s": s, "want": want, "opts": opts, "backend": bname}
+            if r[0] == "EXC":
+                acc.mismatch("totality", f"{r[1]}@{r[2]}", case, list(r), "a supported value or ValueError")
+                continue
+            if r[0] == "ValueError":
+                got = None
+            elif r[0] == "Date":
+                got = tuple(r[1])
+            elif r[0] == "DateTime":
+                got = tuple(r[1][:3]) if tuple(r[1][3:]) == (0, 0, 0, 0) else ("time", r[1])
+            else:
+                got = (r[0],)
+            if got != (None if want is None else tuple(want)):
+                shape = "week" if "W" in s else "ordinal" if len(s.replace("-", "")) == 7 else "calendar"
+                acc.mismatch("boundary", f"{shape}/{'accepted-impossible' if want is None else 'wrong-or-rejected'}", case,
+                             list(r), "ValueError" if want is None else ["Date", list(want)])
+            acc.outcomes[r[0]] += 1
+
+
 def edits1(t, alphabet):
     out = set()
     for i in range(len(t) + 1):
@@ -242,6 +313,12 @@ def run_shard(shard):
             batch(strs, OPTION_SETS, "bignum")
             acc.c["nontrivial"] += len(strs)
             acc.sample({"bignum": strs[:4]})
+        elif k == "boundaries":
+            for st, want in boundary_strings(shard["years"]):
+                n += 1
+                check_boundary(acc, pendulum, swap, st, want)
+            acc.c["nontrivial"] += len(shard["years"])
+            acc.sample({"boundary_years": shard["years"][:4], "example": f"{shard['years'][0]:04d}-W53-1"})
         elif k == "nonstrict":
             texts = ["Oct 6 2016", "6 October 2016", "October 6, 2016 12:34", "10/06/2016", "06.10.2016", "Thu, 06 Oct 2016 12:34:56 +0000",
                      "tomorrow", "2016-10-06 12pm", "12pm", "noon", "", " ", "-", "T", "P", "PT", "Z", "+", "W", "/", "//", "P/P", "T/T",
@@ -267,6 +344,12 @@ def replay_case(case, acc):
     pendulum, swap = _setup()
     s, opts = case["s"], case.get("opts", {})
     worker.horizon(10.0)
+    if case.get("kind") == "b":
+        try:
+            check_boundary(acc, pendulum, swap, s, case["want"])
+        finally:
+            worker.horizon_off()
+        return
     try:
         for cls in ("len1", "len2", "len3", "len4", "len5", "len6", "edit1", "edit2", "trunc", "concat", "bignum", "misc"):
             check_string(acc, pendulum, swap, s, [opts], cls)
@@ -313,8 +396,12 @@ def plan(tier, seed):
         shards.append({"kind": "concat", "left": ch})
     shards.append({"kind": "bignum"})
     shards.append({"kind": "nonstrict"})
+    # every year type (leap x weekday of 1 January: the 28-year cycle) + century years + range ends
+    byears = list(range(1996, 2024)) + [1900, 2000, 2100, 1, 4, 9999, 1000 + seed % 800]
+    for ch in seeds.chunks(byears, 7):
+        shards.append({"kind": "boundaries", "years": ch})
     plans = [({"ext": 1, "tz": "sys"}, shards)]
-    light = [s for s in shards if s["kind"] in ("edits", "trunc", "bignum", "nonstrict") or (s["kind"] == "all" and s["length"] <= 3)]
+    light = [s for s in shards if s["kind"] in ("edits", "trunc", "bignum", "nonstrict", "boundaries") or (s["kind"] == "all" and s["length"] <= 3)]
     plans.append(({"ext": 0, "tz": "sys"}, light))
     return plans
 
